@@ -82,13 +82,21 @@ class Gen:
         return out
 
 
+def pnames(n: str) -> List[str]:
+    """Sibling names of the shape N + one char + "p" + rest: a file of such a record reads like a
+    patch of N to any matcher that does not take the separators literally."""
+    return [n + c + "p" + rest for c in ("-", "2", "7", "x", "a") for rest in ("", "1", "rocessed")]
+
+
 def cell_script(rng, cls, sit, mode) -> List[Any]:
     g = Gen(rng)
     n = rng.choice(NAMES)
     blocks = [g.build(cls, n, sit)]
     for m in NAMES:
-        if m != n and rng.random() < 0.7:
+        if m != n and rng.random() < 0.5:
             blocks.append(g.build(rng.choice(CLASSES), m, rng.choice(SITS)))
+    if rng.random() < 0.8:
+        blocks.append(g.build(rng.choice(CLASSES), rng.choice(pnames(n)), rng.choice(SITS[1:])))
     rng.shuffle(blocks)
     cmds = [c for b in blocks for c in b]
     cmds.append(["classify", n])
@@ -98,6 +106,9 @@ def cell_script(rng, cls, sit, mode) -> List[Any]:
     cmds.append(["reopen-perms", cls, n, 24])
     if rng.random() < 0.5:
         cmds.append(["reopen-sublists", cls, n])
+    if rng.random() < 0.6:
+        cmds.append(["list-sessions", cls, n, rng.choice(["r+", "a"]), 2])
+        cmds.append(["reopen-perms", cls, n, 6])
     other = rng.choice([m for m in NAMES if m != n])
     cmds.append(["reopen-perms", rng.choice(CLASSES), other, 6])
     cmds.append(["classify", n])
@@ -107,11 +118,14 @@ def cell_script(rng, cls, sit, mode) -> List[Any]:
 def random_script(rng) -> List[Any]:
     g = Gen(rng)
     cmds: List[Any] = []
+    pool = NAMES + rng.sample([x for m in NAMES for x in pnames(m)], 2)
     for _ in range(rng.randint(5, 12)):
-        n = rng.choice(NAMES)
+        n = rng.choice(pool)
         cls = rng.choice(CLASSES)
         r = rng.random()
-        if r < 0.2:
+        if r < 0.1:
+            cmds.append(["list-sessions", cls, n, rng.choice(["r+", "a"]), rng.randint(1, 2)])
+        elif r < 0.2:
             cmds.append(["reopen-perms", cls, n, 6])
         elif r < 0.27:
             cmds.append(["reopen-sublists", cls, n])
@@ -122,7 +136,7 @@ def random_script(rng) -> List[Any]:
             cmds.append(g.open(cls, mode, n))
             cmds += g.handle_ops(0, 7)
             cmds += [["close", rng.choice(["T", "T", "F"])], ["drop"]]
-    for n in NAMES:
+    for n in pool:
         cmds.append(["reopen-perms", rng.choice(CLASSES), n, 4])
     return cmds
 
@@ -174,6 +188,8 @@ def gen_name_cases(ctx) -> List[Dict[str, Any]]:
                 pool.append(base + "".join(rng.choice(alphabet) for _ in range(rng.randint(1, 3))))
             elif len(base) > 1:
                 pool.append(base[:rng.randint(1, len(base) - 1)])
+        for _ in range(rng.randint(0, 2)):
+            pool.append(rng.choice(pnames(rng.choice(pool))))
         pool = sorted(set(pool))
         files = set()
         for n in pool:
@@ -341,6 +357,8 @@ def run(ctx: vlib.Ctx):
     oracle_sets = [list(NAMES)]
     for q in sorted(set(bad_names))[:6]:
         oracle_sets.append(sorted(set(NAMES + [q, q.rstrip("\n")])))
+    for base in NAMES:
+        oracle_sets.append(sorted({base, *ctx.rng.sample(pnames(base), 3)}))
     for _ in range(ctx.budget(10, 60)):
         base = ctx.rng.choice(NAMES)
         oracle_sets.append(sorted({base, base + ctx.rng.choice("2-xZ9"), base[:-1] or "f", base + "\n", base + "-" + base}))
